@@ -97,6 +97,34 @@ def rule_edges(ctx):
     ctx.check("add_dependency" in cs and len(reads) >= 2, rule, "resolve_reference", "resolve_reference no longer looks up the binding "
               "site of local and global referents (under_map reads: %d) and records the dependency" % len(reads),
               facts.bodies()[fn]["loc"], detail={"under_map_reads": len(reads)})
+    # a reference from a binder's annotation to an earlier, already resolved component of the same binder is not a dependency
+    par = {}
+    stack = [h["body"]]
+    while stack:
+        p_ = stack.pop()
+        for c in H.children(p_):
+            if isinstance(c, dict):
+                par[id(c)] = p_
+                stack.append(c)
+    guarded = False
+    genv = A.ArmEnv()
+    genv.strip = True
+    genv.bind_params(h)
+    genv.absorb(h["body"])
+    for c in H.walk(h["body"]):
+        if H.kind(c) in ("Call", "MethodCall") and (H.callee(c) or "").endswith("::add_dependency"):
+            cur = c
+            while id(cur) in par:
+                cur = par[id(cur)]
+                if H.kind(cur) == "If":
+                    sx = A.sexpr(cur.get("c") or {}, genv)
+                    if re.search(r"\(\. \$P0 defs\)", sx) and re.search(r"\(\. \$P\d under\)", sx):
+                        guarded = True
+    ctx.check(guarded, rule, "resolve_reference:own-earlier-component", "resolve_reference records a dependency for EVERY referent with a "
+              "binding site: the annotation of `let (Carrier, held : Carrier, ..) = pkg that` names an earlier component of its own "
+              "pattern, whose block-wide site is the binding itself, so the binding depends on itself, becomes a recursive group and "
+              "is rejected (`Missing seal`), while the same pattern under `in` is accepted: pattern components bind left to right",
+              facts.bodies()[fn]["loc"])
     # add_dependency: every enclosing site of the same block records user -> dependency
     fn = next((p for p in facts.bodies() if p.endswith("::add_dependency")), None)
     if fn is None:
